@@ -245,6 +245,45 @@ func execTimeout(env *run.Env) time.Duration {
 	return 4 * time.Minute
 }
 
+// simPrograms runs TLC in simulation mode on a state-machine module whose invariant prints every action
+// label ("SIM {json}") and turns each behaviour into a program.
+func simPrograms(env *run.Env, sp *simSpec, thor bool) ([]gen.Program, error) {
+	num, depth := sp.qNum, sp.qDepth
+	if thor {
+		num, depth = sp.tNum, sp.tDepth
+	}
+	res, err := env.TLC(sp.mod, nil, 1, 3000, nil, 20*time.Minute, "-simulate", fmt.Sprintf("num=%d", num), "-depth", fmt.Sprint(depth), "-seed", fmt.Sprint(env.Seed))
+	if err != nil {
+		return nil, err
+	}
+	if res.Violated != "" {
+		return nil, fmt.Errorf("simulation of %s violated %s", sp.mod, res.Violated)
+	}
+	var progs []gen.Program
+	var cur *gen.Program
+	for _, ln := range res.Prints {
+		var rec struct {
+			Lvl  int            `json:"lvl"`
+			Step map[string]any `json:"step"`
+		}
+		if err := json.Unmarshal([]byte(ln), &rec); err != nil {
+			return nil, fmt.Errorf("bad SIM line: %v", err)
+		}
+		if rec.Lvl <= 1 {
+			continue
+		}
+		if rec.Lvl == 2 || cur == nil {
+			progs = append(progs, gen.Program{ID: fmt.Sprintf("sim-%d", len(progs)+1), Regs: []string{"r0", "r1", "r2"}})
+			cur = &progs[len(progs)-1]
+		}
+		cur.Steps = append(cur.Steps, rec.Step)
+	}
+	if len(progs) == 0 {
+		return nil, fmt.Errorf("simulation of %s printed no behaviour", sp.mod)
+	}
+	return progs, nil
+}
+
 // isPar reports whether the mismatching event lies inside a Par block (goroutines).
 func isPar(r *batchResult, b badEntry) bool {
 	ln := string(r.evLines[b.L-1])
@@ -441,6 +480,16 @@ func runCheck(env *run.Env, c *check) int {
 	// (V) programs -> executor -> trace validation
 	g := gen.New(env.Seed*1000003+int64(len(c.id)), thor)
 	progs := c.gen(g, thor)
+	nsim := 0
+	if c.sim != nil {
+		sp, err := simPrograms(env, c.sim, thor)
+		if err != nil {
+			die("(G) %v", err)
+		}
+		nsim = len(sp)
+		progs = append(progs, sp...)
+		logf("(G) %d behaviours of %s simulated by TLC become programs", nsim, c.sim.mod)
+	}
 	per := c.batch
 	if per == 0 {
 		per = 25
@@ -643,6 +692,7 @@ func runCheck(env *run.Env, c *check) int {
 			"distinct_nontrivial":           distinct,
 			"rule":                          c.rule,
 			"programs":                      len(progs),
+			"programs_from_tlc_simulation":  nsim,
 			"bounded_models":                modelNotes,
 			"trace_spec":                    c.trace,
 			"coverage_cells":                cov,
